@@ -87,6 +87,7 @@ def spaces(tier):
             out.append(cs.db_space(4, combo, 0, base_level=-171.6))
         for n in (2, 3):
             out.append(cs.db_space(n, cs.COMBOS[n % 2], 1, cli=True))
+        out.append(cs.sequence_space(3))
     else:
         out.append(cs.db_space(6, cs.COMBOS[3], 0))
         for combo in cs.EXTREME:
@@ -100,6 +101,7 @@ def spaces(tier):
         out.append(cs.db_space(7, cs.COMBOS[3], 0))
         for n in (2, 3, 4):
             out.append(cs.db_space(n, cs.COMBOS[n % 2], 2, cli=True))
+        out.append(cs.sequence_space(4))
     return out
 
 
@@ -159,6 +161,8 @@ def run_case(case):
     if case['kind'] == 'runs':
         return run_runs(case)
     viol, info = cs.run_case_for(case, WANT)
+    if case['kind'] == 'sequence':
+        return cs.to_result(viol['C04'], info)
     info['nontrivial'] = bool(
         info.get('counters', {}).get('records_with_interstorm'))
     return cs.to_result(viol['C04'], info)
